@@ -16,6 +16,8 @@ def run(ctx):
     q = ctx.quick
     r, ss = sessions.generate(ctx, "c14", {"Templates": sessions.ALL_TEMPLATES, "NoiseSet": NOISE, "MaxEdits": 1, "EditKinds": '{"Blunder", "Isolate", "LoneSet", "WeakPoint"}',
                                            "KeepNet": 211 if q else 23, "KeepEdit": 5 if q else 1, "Seed": ctx.seed})
+    # WeakPoint 3, 4 (weights below sqrt(eps)) are the subject of a C02 finding: envelope refuses such networks
+    ss = [s for s in ss if not (s["edits"][0]["e"]["k"] == "WeakPoint" and s["edits"][0]["e"]["s"] >= 3)]
     ss = ss[:: max(1, len(ss) // (500 if q else 8000))]
     ctx.note("SurveySession: %d Blunder / Isolate sessions" % len(ss))
     jobs, meta = [], []
@@ -59,7 +61,7 @@ def run(ctx):
                 report("weakpoint_outcome", "network with a practically undetermined point: %s, without it: %s" % (cls, gl.classify(run2)))
                 continue
             nexcl += 1
-            wid = "0W" if e["s"] == 1 else "W"
+            wid = "0W" if e["s"] in (1, 3) else "W"
             if not re.search(r"^\s*%s\s+\S" % wid, txt, re.M):
                 report("weakpoint_unreported", "removed point %s is not listed with a reason in the text output" % wid)
             session.check_law(session.project(run2.res, sv2), session.project(run.res, sv), {"k": "ExcludeVsDelete"},
